@@ -83,6 +83,12 @@ def check_frame(ctx, p, vertices, edges, cells, label):
         if len(e) == 2 and len(sep) == 1:
             n_amb += 1
             continue
+        if len(e) == 2 and len(sep) == 2 and set(sep) < set(be.own_cells):
+            # known finding D29: a further cell touches both ends of a one-edge interface (the other side of a cell
+            # with only two junctions) and is listed as a third owner
+            ctx.known("D29")
+            ctx.exclude_known("D29")
+            continue
         if len(sep) != 2 or sorted(be.own_cells) != sorted(sep) or len(be.own_cells) != 2:
             ctx.violation("internal-separates-two-cells", p, observed=sorted(be.own_cells), expected=sorted(sep),
                           detail={"interface": e[:6]}, kind=label)
@@ -209,8 +215,80 @@ def _subset_job(args):
     return ctx.export()
 
 
+# ------------------------------------------------------------------------------------------ two-junction cells
+def dcell_mesh(p):
+    """A cell X with exactly two junctions between a left, a right and a bottom neighbour: its lower side is an arc
+    with k interior points shared with the bottom cell, its upper side one straight mesh edge - free ('border'
+    variant) or shared with a top cell ('lens' variant). All stored rotations / orientations / construction orders."""
+    import math
+    import forsys.vertex as fvertex
+    import forsys.edge as fedge
+    import forsys.cell as fcell
+    k = p["k"]
+    arc = [(1.0 + (i + 1) / (k + 1), 1.0 - 0.35 * math.sin(math.pi * (i + 1) / (k + 1))) for i in range(k)]
+    J1, J2 = (1.0, 1.0), (2.0, 1.0)
+    polys = {
+        "L": [(0.0, 0.0), (1.0, 0.0), J1, (1.0, 2.0), (0.0, 2.0)],
+        "R": [(2.0, 0.0), (3.0, 0.0), (3.0, 2.0), (2.0, 2.0), J2],
+        "B": [(1.0, 0.0), (2.0, 0.0), J2] + arc[::-1] + [J1],
+        "X": [J1] + arc + [J2],
+    }
+    if p["variant"] == "lens":
+        polys["T"] = [J1, J2, (2.0, 2.0), (1.0, 2.0)]
+    else:
+        polys["L"] = [(0.0, 0.0), (1.0, 0.0), J1, (0.0, 1.0)]
+        polys["R"] = [(2.0, 0.0), (3.0, 0.0), (3.0, 1.0), J2]
+    names = sorted(polys)
+    order = [names[(i + p["order"]) % len(names)] for i in range(len(names))]
+    vid, V, E, C = {}, {}, {}, {}
+    pairs = set()
+    for ci, name in enumerate(order):
+        poly = polys[name]
+        if name == "X":
+            r = p["rot"] % len(poly)
+            poly = poly[r:] + poly[:r]
+        if (p["flips"] >> names.index(name)) & 1:
+            poly = poly[::-1]
+        vs = []
+        for q in poly:
+            if q not in vid:
+                vid[q] = 3 + 2 * len(vid)
+                V[vid[q]] = fvertex.Vertex(vid[q], float(q[0]), float(q[1]))
+            vs.append(V[vid[q]])
+        for a, b in zip(vs, vs[1:] + vs[:1]):
+            if frozenset((a.id, b.id)) not in pairs:
+                pairs.add(frozenset((a.id, b.id)))
+                eid = 10 + len(E)
+                E[eid] = fedge.SmallEdge(eid, a, b)
+        C[20 + ci] = fcell.Cell(20 + ci, vs)
+    return V, E, C
+
+
+def check_dcell(p, ctx):
+    V, E, C = dcell_mesh(p)
+    res = check_frame(ctx, p, V, E, C, "dcell")
+    if res is None:
+        return
+    ctx.count("two-junction-cell:" + p["variant"])
+    ctx.count("lookups-by-cells", res["lookups"])
+    if res["internal"] >= 1 and res["external"] >= 1:
+        ctx.mark_nontrivial(p)
+
+
 def run_serial(ctx):
     """Exhaustive enumeration (Pool(16)); runs once, in the parent."""
+    n_d = 0
+    for variant in ("border", "lens"):
+        ncell = 5 if variant == "lens" else 4
+        for k in (1, 2, 4):
+            for rot in range(k + 2):
+                for flips in (0, 1 << 3 if variant == "border" else 1 << 4, (1 << ncell) - 1, 0b0101):
+                    for order in range(ncell):
+                        ctx.evaluations += 1
+                        n_d += 1
+                        run_case(ctx, check_dcell, {"variant": variant, "k": k, "rot": rot, "flips": flips,
+                                                    "order": order}, "dcell")
+    ctx.notes.append(f"{n_d} stored forms of the two-junction-cell tissues enumerated completely")
     import multiprocessing as mp
     nbase = 9 if ctx.tier == "quick" else 42
     jobs = []
@@ -340,4 +418,19 @@ def evidence_extra(ctx):
             "exhaustive": bool([n for n in ctx.notes if "enumerated completely" in n])}
 
 
-CASES = {"subset": check_subset, "random": check_random, "parser": check_parser}
+CASES = {"subset": check_subset, "random": check_random, "parser": check_parser, "dcell": check_dcell}
+
+
+def demo_D29():
+    """The 'lens' variant of the two-junction-cell tissue: the one-edge interface lists three owner cells."""
+    import forsys.frames as fframes
+    V, E, C = dcell_mesh({"variant": "lens", "k": 2, "rot": 0, "flips": 0, "order": 0})
+    frame = call(fframes.Frame, 0, V, E, C, time=0.0)
+    for be in frame.internal_big_edges:
+        if len(be.vertices) == 2 and len(be.own_cells) > 2:
+            return True, f"one-edge interface {be.get_vertices_ids()} lists owners {sorted(be.own_cells)}"
+    return False, "every one-edge internal interface lists two owners"
+
+
+def demonstrators():
+    return {"D29": demo_D29}
